@@ -195,3 +195,166 @@ func c12BoundedPasses(c *Ctx) {
 	}
 	c.check(bad == "", "C12.R4", "progress-reset "+m.fnName(reloc), "relocatedObjects = 0 at the start of each pass (objIndex == 0), +1 per relocation", bad, m.pos(reloc.Pos()))
 }
+
+// C12.R5: an object that is already part of the tree may be moved (detach +
+// append) under a parent that was found by *name lookup* only if the new parent
+// is not the object itself or one of its descendants; otherwise the tree becomes
+// a cycle and every recursive walk (the resolve passes themselves, printing)
+// runs until the stack is exhausted. Structural form: between the lookup and
+// the move there is a walk from the new parent up the parentIndex chain that
+// compares each ancestor with the moved object, and the "equal" outcome cannot
+// reach the move.
+func c12MoveAcyclic(c *Ctx) {
+	m := c.K
+	const aml = "device/acpi/aml"
+	c.floor("C12.R5", 1)
+	find := m.lookupMethod(aml, "ObjectTree", "Find")
+	detach := m.lookupMethod(aml, "ObjectTree", "detach")
+	appendM := m.lookupMethod(aml, "ObjectTree", "append")
+	objectAt := m.lookupMethod(aml, "ObjectTree", "ObjectAt")
+	parentF := m.fieldOf(aml, "Object", "parentIndex")
+	indexF := m.fieldOf(aml, "Object", "index")
+	reloc := m.lookupMethod(aml, "Parser", "relocateNamedObjects")
+	for name, v := range map[string]interface{}{"ObjectTree.Find": find, "ObjectTree.detach": detach, "ObjectTree.append": appendM, "ObjectTree.ObjectAt": objectAt,
+		"Object.parentIndex": parentF, "Object.index": indexF, "Parser.relocateNamedObjects": reloc} {
+		if isNilIface(v) {
+			c.unresolved("C12.R5", name)
+			return
+		}
+	}
+	var derives func(v, src ssa.Value, depth int, seen map[ssa.Value]bool) bool
+	derives = func(v, src ssa.Value, depth int, seen map[ssa.Value]bool) bool {
+		if v == src {
+			return true
+		}
+		if depth > 10 || v == nil || seen[v] {
+			return false
+		}
+		seen[v] = true
+		switch x := v.(type) {
+		case *ssa.Phi:
+			for _, e := range x.Edges {
+				if derives(e, src, depth+1, seen) {
+					return true
+				}
+			}
+		case *ssa.Call:
+			for _, a := range x.Common().Args {
+				if derives(a, src, depth+1, seen) {
+					return true
+				}
+			}
+		case *ssa.UnOp:
+			return derives(x.X, src, depth+1, seen)
+		case *ssa.FieldAddr:
+			return derives(x.X, src, depth+1, seen)
+		case *ssa.Convert:
+			return derives(x.X, src, depth+1, seen)
+		case *ssa.ChangeType:
+			return derives(x.X, src, depth+1, seen)
+		case *ssa.Extract:
+			return derives(x.Tuple, src, depth+1, seen)
+		case *ssa.BinOp:
+			return derives(x.X, src, depth+1, seen) || derives(x.Y, src, depth+1, seen)
+		}
+		return false
+	}
+	pkg := m.pkg(aml)
+	nmoves := 0
+	for _, fn := range m.scanFuncs() {
+		if fn.Pkg != pkg {
+			continue
+		}
+		g := scanIG(m, fn, nil)
+		finds := g.callNodes(find)
+		if len(finds) == 0 {
+			continue
+		}
+		for _, an := range g.callNodes(appendM) {
+			aargs := g.callArgs(an)
+			if len(aargs) < 3 {
+				continue
+			}
+			target, moved := aargs[1], aargs[2]
+			// a move: the same object is detached before on every path
+			isDetach := func(k int) bool {
+				if !m.callsTo(g.Ins[k], detach) {
+					return false
+				}
+				a := g.callArgs(k)
+				return len(a) >= 3 && a[2] == moved
+			}
+			if ok, _ := g.MustPassBefore(an, isDetach); !ok {
+				continue
+			}
+			// ... under a parent that comes from a name lookup
+			var src ssa.Value
+			for _, fnode := range finds {
+				if fv, ok := g.Ins[fnode].(ssa.Value); ok && derives(target, fv, 0, map[ssa.Value]bool{}) {
+					src = fv
+				}
+			}
+			if src == nil {
+				continue
+			}
+			// the moved object is the function's own subject (not a child that is
+			// being handed to the found scope: moving the *contents* of a Scope
+			// directive cannot close a cycle through the directive, which is freed)
+			if fn != reloc {
+				continue
+			}
+			nmoves++
+			c.Evals++
+			key := fmt.Sprintf("move-acyclic %s #%d", m.fnName(fn), nmoves)
+			isMovedIndex := func(v ssa.Value) bool {
+				v = stripConv(v)
+				if b, f, ok := loadedField(v); ok && f == indexF && b == moved {
+					return true
+				}
+				if call, ok := moved.(*ssa.Call); ok && m.callee(call.Common()) == objectAt && len(call.Common().Args) > 1 && call.Common().Args[1] == v {
+					return true
+				}
+				return false
+			}
+			guarded := false
+			for _, in := range g.Ins {
+				w, ok := in.(*ssa.Phi)
+				if !ok || !isIntegral(w.Type()) {
+					continue
+				}
+				stepsUp, fromTarget := false, false
+				for _, e := range w.Edges {
+					if b, f, ok := loadedField(e); ok && f == parentF {
+						if call, ok := b.(*ssa.Call); ok && m.callee(call.Common()) == objectAt && stripConv(call.Common().Args[1]) == ssa.Value(w) {
+							stepsUp = true
+							continue
+						}
+					}
+					if derives(e, target, 0, map[ssa.Value]bool{}) || derives(e, src, 0, map[ssa.Value]bool{}) {
+						fromTarget = true
+					}
+				}
+				if !stepsUp || !fromTarget {
+					continue
+				}
+				wn := g.Idx[w]
+				if ok, _ := g.MustPassBefore(an, func(k int) bool { return k == wn }); !ok {
+					continue
+				}
+				for _, f := range g.AllEdgeFacts() {
+					if !cmpMatch(f, token.EQL, func(v ssa.Value) bool { return stripConv(v) == ssa.Value(w) }, isMovedIndex) {
+						continue
+					}
+					if !g.ReachAssuming(f.Edge, nil)[an] {
+						guarded = true
+					}
+				}
+			}
+			c.check(guarded, "C12.R5", key, "the new parent's ancestor chain is compared with the moved object before the move; an ancestor equal to it cannot reach the move",
+				"an attached object is moved under a parent found by name lookup without checking that the parent is not the object itself or one of its descendants: a path such as AAAA.AAAA makes the tree a cycle and the resolve pass recurses until the stack overflows", g.posOf(an))
+		}
+	}
+	if nmoves == 0 {
+		c.fail("C12.R5", "move-acyclic aml", "no move of an attached object under a looked-up parent found in relocateNamedObjects (rule shape lost)")
+	}
+}
